@@ -15,7 +15,7 @@ Q_TSteps == {2, 3}
 Q_FBounds == {-4, -1, 0, 1, 2, 5}
 Q_Shifts == {-29, -24, -21, -8, -5, -4, -1, 0, 1, 4, 6, 8, 20, 24, 27}
 Q_Delays == {-27, -20, -9, -4, -1, 0, 1, 4, 10, 20, 23}
-Q_IDelays == {-6, -2, -1, 0, 1, 3, 6}
+Q_IDelays == {-4, -3, -1, 0, 1, 2, 4}
 Q_SnipT == {-4, 0, 1, 4, 6, 8, 16, 20, 21}
 Q_SnipN == {-1, 0, 1, 2, 5}
 \* frequency-axis instances (C02): more channels, nested channel selections
